@@ -756,16 +756,20 @@ func parseTags(text string, basePos Position) []ast.Tag {
 
 	var tags []ast.Tag
 	parts := strings.Split(text, ",")
-	searchStart := 0
+	partStart := 0
 
 	for _, part := range parts {
+		// a tag is located inside its own part of the text, never by searching the text before it
+		partOffset := partStart
+		partStart += len(part) + 1
+
 		trimmed := strings.TrimSpace(part)
 		colonIdx := strings.Index(trimmed, ":")
 		if colonIdx == -1 {
 			continue
 		}
 
-		name := strings.TrimSpace(trimmed[:colonIdx])
+		name := trimmed[:colonIdx]
 		if name == "" || !isValidTagName(name) {
 			continue
 		}
@@ -775,19 +779,8 @@ func parseTags(text string, basePos Position) []ast.Tag {
 			value = strings.TrimSpace(trimmed[colonIdx+1:])
 		}
 
-		tagStart := strings.Index(text[searchStart:], name+":")
-		if tagStart == -1 {
-			continue
-		}
-		tagStart += searchStart
-
-		tagEnd := tagStart + len(name) + 1
-		if value != "" {
-			valueStart := strings.Index(text[tagEnd:], value)
-			if valueStart != -1 {
-				tagEnd = tagEnd + valueStart + len(value)
-			}
-		}
+		tagStart := partOffset + strings.Index(part, trimmed)
+		tagEnd := tagStart + len(trimmed)
 
 		startCol := basePos.Column + 1 + utf16Units(text[:tagStart])
 		endCol := basePos.Column + 1 + utf16Units(text[:tagEnd])
@@ -800,8 +793,6 @@ func parseTags(text string, basePos Position) []ast.Tag {
 				End:   ast.Position{Line: basePos.Line, Column: endCol, Offset: basePos.Offset + 1 + tagEnd},
 			},
 		})
-
-		searchStart = tagEnd
 	}
 
 	return tags
